@@ -406,6 +406,16 @@ static void fixed_cases(Rng & rng) {
             if (fv.getValue(sp, {1, 2}) != 60 - 6 + 6) _exit(4);
         });
     }
+    // --- empty FactoredVector / FactoredMatrix2D scaled by an (equally empty) weights vector: documented precondition
+    //     |w| == |bases| holds, the weighted combination of no functions is the zero function
+    probe("FactoredVector::operator*=(Vector)", "reads_weights_of_empty_vector", [=] {
+        F::FactoredVector fv; Vector w(0); fv *= w;
+        if (fv.getValue(sp, {1, 2}) != 0.0 || fv.getValue(sp, {1, 2}, w) != 0.0) _exit(4);
+    });
+    probe("FactoredMatrix2D::operator*=(Vector)", "reads_weights_of_empty_vector", [=] {
+        F::FactoredMatrix2D fm; Vector w(0); fm *= w;
+        if (fm.getValue(sp, sp, {1, 2}, {0, 1}) != 0.0) _exit(4);
+    });
     // --- size-1 factors and a single-factor space
     {
         F::Factors s1{1, 3, 1};
